@@ -35,7 +35,8 @@ RULE = (
 ASSUMPTIONS = ["not asserted: skeleton patch_index of groups; patch indices in stub-derived chains",
                "U is restricted to operations whose outcome depends only on existence/kind (the property's domain)"]
 REQUIRED_CLASSES = {"all": ["real_ge3_containers", "exts_set", "exts_cleared_with_empty_dict", "update_deletes_old_node",
-                            "stub_patch_applied", "root_attr_only_patch", "refused_commit_then_commit"]}
+                            "stub_patch_applied", "root_attr_only_patch", "refused_commit_then_commit",
+                            "plain_class_patch_in_between"]}
 BUDGET_S = {"quick": 900, "thorough": 3 * 3600}
 NSHARD = 16
 
@@ -161,6 +162,30 @@ def run_case(case, rec=None):
             sess._snap_idx()
             check_commit(sess, t.rec.ih5_files[-1], state["exts"])
             classes.add("refused_commit_then_commit")
+        if case.get("plain_patch"):
+            # one patch made with the plain IH5Record class (what MetadorContainer's default IH5 driver does; the
+            # docs allow the mix: not every patch needs a manifest), then an IH5MFRecord patch without manifest_exts:
+            # the extensions still persist, nobody overrode them
+            from metador_core.ih5.container import IH5Record
+
+            n0 = len(t.rec.ih5_files)
+            t.rec.close()
+            pr = IH5Record(t.path, "r+")
+            pr.attrs["viaplain"] = 1
+            pr.close()
+            t.rec = IH5MFRecord(t.path, "r+")
+            t.rec.attrs["viamf"] = 2
+            t.rec.commit_patch()
+            t.commits += 2
+            for key, val, idx in (("viaplain", 1, n0), ("viamf", 2, n0 + 1)):
+                sess.tree.setattr("/", key, H.expected_canon({"t": "int", "v": val}, True))
+                sess.attr_set_in[("/", key)] = idx
+            sess._snap_idx()
+            try:
+                check_commit(sess, t.rec.ih5_files[-1], state["exts"])
+            except Violation as v:
+                raise Violation(v.signature + ":after-plain-patch", v.observed, v.expected)
+            classes.add("plain_class_patch_in_between")
         sess.verify("real record after final commit")
         real_files = [str(p) for p in t.rec.ih5_files]
         n = len(real_files)
@@ -328,8 +353,8 @@ def cases(max_ops):
                        st.tuples(st.just("del"), H.ref, H.ref).map(list),
                        st.tuples(st.just("replace"), H.ref, st.sampled_from(["g", "d"]), H.small_value).map(list))
     upd = st.lists(upd_op, min_size=1, max_size=8)
-    return st.builds(lambda h, u, fe, bk: dict(history=h, update=u, final_exts=fe, bad_kw=bk), hist, upd,
-                     st.sampled_from([None, None, {"f": 1}, {}]), st.booleans())
+    return st.builds(lambda h, u, fe, bk, pp: dict(history=h, update=u, final_exts=fe, bad_kw=bk, plain_patch=pp), hist, upd,
+                     st.sampled_from([None, None, {"f": 1}, {}]), st.booleans(), st.booleans())
 
 
 def run_shard(shard, tier, seed, rec):
